@@ -433,6 +433,25 @@ fn verif_replay_broker() {
                 v.extend(replacement_violations(pre, post, op["args"][0].as_str().unwrap_or(""), result));
             }
         }
+        if has("recover") && opname == "recover_epoch" {
+            // after epoch recovery every served view carries an epoch above the largest epoch any proxy holds
+            let largest = spec["largest_proxy_epoch"].as_u64().unwrap_or(0);
+            for a in post.all_proxies.keys() {
+                for limit in limits.iter() {
+                    let served = post.get_proxy_by_address(a, *limit).map(|p| p.get_epoch()).unwrap_or(u64::MAX);
+                    if served <= largest {
+                        v.push(format!("C13/served-epoch-not-above-largest-proxy-epoch proxy={} limit={} served={} largest={}", a, limit, served, largest));
+                    }
+                }
+            }
+            for name in post.clusters.keys() {
+                if let Some(c) = post.get_cluster_by_name(&name.to_string(), 0) {
+                    if c.get_epoch() <= largest {
+                        v.push(format!("C13/cluster-epoch-not-above-largest-proxy-epoch cluster={} served={} largest={}", name, c.get_epoch(), largest));
+                    }
+                }
+            }
+        }
         if has("partition") {
             v.extend(partition_violations(post, &cluster, &limits));
         }
